@@ -488,7 +488,7 @@ struct Scn
 	}
 
 	// ---------------------------------------------------------- scenario table
-	static int count() { return 18; }
+	static int count() { return 19; }
 	void build()
 	{
 		base();
@@ -545,8 +545,23 @@ struct Scn
 				add_bystanders(); break;
 			case 17: desc = "tcp pair over a 5 ms link, the client reads and writes right after async_connect() (parked until the handshake completes), 3 kB each way"; net.def_net = {slowq}; start_sim();
 				early_io = true; add_pair(4000, 0, 3000, 3000, true); early_io = false; add_bystanders(); break;
-			case 10: desc = "tcp resolver: fast name, 1 h name, literal, queued name"; start_sim(); add_resolver(false, true); add_bystanders(); break;
-			case 11: desc = "udp resolver: 1 h name, v6 literal, queued name"; start_sim(); add_resolver(true, true); add_bystanders(); break;
+			case 18: desc = "timer cancelled at 1 ms and waited on again without a new expiry (due at 10 ms), next to a 20 ms timer"; start_sim();
+				add_timer(10000000, false, true); add_timer(20000000, false, true);
+				after(1000000, [this]() {
+					if (!timers[0]) return;
+					API(timers[0]->cancel());
+					timer_ops.push_back(ops.make("timer.wait", 500, false));
+					API(timers[0]->async_wait(track1(timer_ops.back(), [](error_code const&) {})));
+				});
+				add_bystanders(); break;
+			// the no-op timers are armed first and are due at the very instants the resolver's own timer is: their handlers
+			// run first, which puts an event boundary between "the resolver's timer has fired" and "its handler has run"
+			case 10: desc = "tcp resolver: fast name, 1 h name, literal, queued name (with unrelated timers due at the same instants)"; start_sim();
+				for (std::int64_t t : {5000000ll, 3600005000000ll, 3600010000000ll}) after(t, []() {});
+				add_resolver(false, true); add_bystanders(); break;
+			case 11: desc = "udp resolver: 1 h name, v6 literal, queued name (with unrelated timers due at the same instants)"; start_sim();
+				for (std::int64_t t : {3600000000000ll, 3600005000000ll}) after(t, []() {});
+				add_resolver(true, true); add_bystanders(); break;
 			case 12: desc = "bulk tcp through a lossy bottleneck at the receiver side (drops reported long after the send), 120 kB c->s, 40 kB s->c";
 				net.out_spec[A] = {fastq}; net.def_net = {fastq}; net.in_spec[B] = {lossy}; net.out_spec[B] = {fastq}; net.in_spec[A] = {lossy};
 				start_sim(); { TcpPair& p = add_pair(4000, 1, 120000, 40000, true); p.c.wpat = 2; p.s.wpat = 2; } add_bystanders(); break;
